@@ -330,15 +330,15 @@ Lemma sub_seg_R n v ord draws :
   Rwo n v (scatter 0%Z (length v) ord (fst (fst (sub_seg n (gather 0%Z ord v) draws)))).
 Proof.
   intros W Hv Hd. pose proof W as (Hn & Hb & Hs). unfold sub_seg. rewrite (zsum_gather v ord W).
-  simpl in Hd. unfold Rwo. destruct (zsum v <? Z.of_nat n)%Z eqn:E; simpl.
-  - split; [apply scatter_length|]. split.
+  simpl in Hd. unfold Rwo. destruct (zsum v <? Z.of_nat n)%Z eqn:E.
+  - cbn [fst snd]. split; [apply scatter_length|]. split.
     + apply scatter_bound; try assumption. intros k. rewrite nth_repeat.
       pose proof (Forall_nth_nonneg _ k (gather_nonneg ord v Hv)). lia.
     + rewrite zsum_scatter; try assumption; [apply zsum_repeat0|rewrite repeat_length; apply gather_length].
   - destruct draws as [|P rest]; [contradiction|]. destruct Hd as [Hc _].
     rewrite <- (zsum_gather v ord W) in Hc.
     destruct (walk_spec n (gather 0%Z ord v) P (gather_nonneg ord v Hv) Hc) as (L & _ & S & B & _).
-    destruct (walk n (gather 0%Z ord v) P) as [o ok]. simpl in *.
+    destruct (walk n (gather 0%Z ord v) P) as [o ok]. cbn [fst snd] in *.
     split; [apply scatter_length|]. split.
     + apply scatter_bound; assumption.
     + rewrite zsum_scatter; try assumption. rewrite L. apply gather_length.
@@ -365,3 +365,142 @@ Proof.
   destruct (sub_seg n (gather 0%Z ord v) draws) as [[o draws'] ok]. simpl in *.
   constructor; [exact R1|]. apply IH; assumption.
 Qed.
+
+(* ------------------------------------------------------------------ the two closing filters *)
+Definition posb (v : list Z) : bool := (0 <? zsum v)%Z.
+
+Lemma drop_nonpositive_mask a t : wf t -> drop_nonpositive a t = filter_mask (map posb (axis_vecs a t)) a t.
+Proof.
+  intros W. unfold drop_nonpositive, filter_pred, sum_pos_verdicts. rewrite (sum_pos_mask a t W), xorb_false_map.
+  reflexivity.
+Qed.
+
+Lemma filter_mask_n_other m a t : n_other a (filter_mask m a t) = n_other a t.
+Proof. destruct a; reflexivity. Qed.
+
+Lemma nonneg_axis_vecs a t : nonneg_table t -> Forall (Forall (fun x => (0 <= x)%Z)) (axis_vecs a t).
+Proof.
+  intros H. destruct a; simpl; [exact H|]. unfold transpose. apply Forall_forall. intros c Hc.
+  apply in_map_iff in Hc. destruct Hc as [j [<- _]]. unfold mcol. apply Forall_forall. intros x Hx.
+  apply in_map_iff in Hx. destruct Hx as [r [<- Hr]]. unfold nonneg_table in H. rewrite Forall_forall in H.
+  apply Forall_nth_nonneg. apply H. exact Hr.
+Qed.
+
+Lemma posb_all_zero c : Forall (fun x => (0 <= x)%Z) c -> posb c = negb (all_zero c).
+Proof.
+  unfold posb, all_zero. induction 1 as [|x c Hx Hc IH]; [reflexivity|]. simpl.
+  pose proof (zsum_nonneg c Hc). destruct (Z.eqb_spec 0 x) as [<-|Hne]; simpl.
+  - rewrite <- IH. reflexivity.
+  - apply Z.ltb_lt. lia.
+Qed.
+
+Lemma map_ext_Forall {A B} (f g : A -> B) l : Forall (fun x => f x = g x) l -> map f l = map g l.
+Proof. induction 1 as [|x l Hx _ IH]; simpl; [reflexivity|]. rewrite Hx, IH. reflexivity. Qed.
+
+Section Finish.
+  Variable a : axis.
+  Variable K : table.
+  Hypothesis WK : wf K.
+  Hypothesis NK : Forall (Forall (fun x => (0 <= x)%Z)) (axis_vecs a K).
+
+  Let vs1 := axis_vecs a K.
+  Let m1 := map posb vs1.
+  Let T1 := filter_mask m1 a K.
+  Let vs2 := select m1 vs1.
+  Let C := n_other a K.
+  Let m2 := map posb (transpose C vs2).
+  Let T2 := filter_mask m2 (other a) T1.
+
+  Lemma finish_eq : drop_nonpositive (other a) (drop_nonpositive a K) = T2.
+  Proof.
+    rewrite (drop_nonpositive_mask a K WK). fold vs1 m1 T1.
+    assert (W1 : wf T1) by (apply wf_filter_mask; exact WK).
+    rewrite (drop_nonpositive_mask (other a) T1 W1).
+    rewrite (axis_vecs_other a T1 W1). unfold T1 at 2 3. rewrite filter_mask_n_other, (axis_vecs_filter_same m1 a K WK).
+    reflexivity.
+  Qed.
+
+  Lemma finish_wf : wf T2.
+  Proof. apply wf_filter_mask. apply wf_filter_mask. exact WK. Qed.
+
+  Lemma other_other : other (other a) = a.
+  Proof. destruct a; reflexivity. Qed.
+
+  Lemma finish_ids_axis : ids a T2 = select m1 (ids a K).
+  Proof.
+    unfold T2. pose proof (filter_mask_other m2 (other a) T1) as (E & _). rewrite other_other in E. rewrite E.
+    apply ids_filter_same.
+  Qed.
+
+  Lemma finish_ids_other : ids (other a) T2 = select m2 (ids (other a) K).
+  Proof.
+    unfold T2. rewrite ids_filter_same. pose proof (filter_mask_other m1 a K) as (E & _). fold T1 in E. rewrite E.
+    reflexivity.
+  Qed.
+
+  Lemma finish_vecs_axis : axis_vecs a T2 = map (select m2) vs2.
+  Proof. unfold T2. rewrite axis_vecs_filter_other. unfold T1. rewrite (axis_vecs_filter_same m1 a K WK). reflexivity. Qed.
+
+  Lemma T1_other_vecs : axis_vecs (other a) T1 = transpose C vs2.
+  Proof.
+    assert (W1 : wf T1) by (apply wf_filter_mask; exact WK).
+    rewrite (axis_vecs_other a T1 W1). unfold T1. rewrite filter_mask_n_other, (axis_vecs_filter_same m1 a K WK).
+    reflexivity.
+  Qed.
+
+  Lemma finish_vecs_other : axis_vecs (other a) T2 = filter posb (axis_vecs (other a) T1).
+  Proof.
+    assert (W1 : wf T1) by (apply wf_filter_mask; exact WK).
+    unfold T2. rewrite (axis_vecs_filter_same m2 (other a) T1 W1). rewrite T1_other_vecs.
+    unfold m2. apply select_map_filter.
+  Qed.
+
+  Lemma vs2_shape : Forall (fun v => length v = C /\ Forall (fun x => (0 <= x)%Z) v) vs2.
+  Proof.
+    unfold vs2. apply Forall_select. pose proof (axis_vecs_rect a K WK) as R. unfold rect in R.
+    fold vs1 C in R. fold vs1 in NK. rewrite Forall_forall in *. intros v Hv. split; [apply R|apply NK]; exact Hv.
+  Qed.
+
+  (* dropping the other-axis positions whose vector over the retained vectors is all zero
+     does not change the sum of a retained vector *)
+  Lemma finish_sum v : In v vs2 -> zsum (select m2 v) = zsum v.
+  Proof.
+    intros Hv. pose proof vs2_shape as Sh. rewrite Forall_forall in Sh. destruct (Sh v Hv) as [Lv Nv].
+    apply zsum_select_zero.
+    - unfold m2. rewrite map_length, transpose_length. symmetry. exact Lv.
+    - intros j Hj Hm. rewrite Lv in Hj. unfold m2, transpose in Hm. rewrite map_map in Hm.
+      rewrite (nth_map_seq (fun x => posb (mcol vs2 x)) C j false Hj) in Hm.
+      unfold posb in Hm. apply Z.ltb_ge in Hm.
+      apply (zsum_zero_all (mcol vs2 j)); [|exact Hm|].
+      + unfold mcol. apply Forall_forall. intros x Hx. apply in_map_iff in Hx. destruct Hx as [r [<- Hr]].
+        apply Forall_nth_nonneg. apply (Sh r Hr).
+      + unfold mcol. apply in_map_iff. exists v. split; [reflexivity|exact Hv].
+  Qed.
+
+  Lemma finish_cell o s : In o (oids T2) -> In s (sids T2) -> cell T2 o s = cell K o s.
+  Proof.
+    intros Ho Hs. assert (W1 : wf T1) by (apply wf_filter_mask; exact WK).
+    unfold T2 in *. rewrite (filter_mask_cell m2 (other a) T1 o s W1 Ho Hs).
+    assert (In o (oids T1) /\ In s (sids T1)) as [Ho1 Hs1].
+    { destruct a; simpl in *; split; try assumption; eapply select_In; eassumption. }
+    unfold T1 in *. apply filter_mask_cell; assumption.
+  Qed.
+
+  Lemma finish_md_axis x : In x (ids a T2) -> md_of a T2 x = md_of a K x.
+  Proof.
+    intros Hx. assert (W1 : wf T1) by (apply wf_filter_mask; exact WK).
+    assert (E : md_of a T2 x = md_of a T1 x).
+    { unfold T2. destruct a; reflexivity. }
+    rewrite E. unfold T1. apply filter_mask_md; [exact WK|].
+    fold T1. unfold T2 in Hx. destruct a; exact Hx.
+  Qed.
+
+  Lemma finish_md_other y : In y (ids (other a) T2) -> md_of (other a) T2 y = md_of (other a) K y.
+  Proof.
+    intros Hy. assert (W1 : wf T1) by (apply wf_filter_mask; exact WK).
+    unfold T2 in *. rewrite (filter_mask_md m2 (other a) T1 y W1 Hy). unfold T1. destruct a; reflexivity.
+  Qed.
+
+  Lemma finish_type : ttype T2 = ttype K.
+  Proof. unfold T2, T1. destruct a; reflexivity. Qed.
+End Finish.
